@@ -749,7 +749,7 @@ def run_plan(case, res, dig, stats):
         shutil.rmtree(scratch, ignore_errors=True)
     stats["steps"] += len(f1)
     dig.add(plan1.digest().hex() if isinstance(plan1.digest(), bytes) else str(plan1.digest()))
-    return any(k.endswith(ext) for k in f1)
+    return any(k.endswith(ext.split("+")[0]) for k in f1)
 
 
 # ====================================================================================================================
